@@ -19,16 +19,20 @@ Insertion ties (lean/Driver/ExtIns.lean, op `insGuard`; Props/C12.lean `insertPo
 `join_point` the real edit is performed (`tr.insert(p, node)`, `tr.replace(p, p, slice)`, `tr.join(p)`) and the theorem's
 guards are evaluated by the model: guards true ⇒ the real edit succeeded, `check()` passed and (insert, drop) the one
 recorded step is `ReplaceStep(p, p, slice)` (relational); the guard parts with a Python counterpart are compared exactly
-(`boundary` = `resolve(p).text_offset == 0`, `marks` = the parent of `p` allows the node's marks, `trivial` = the real
+(`boundary` = `resolve(p).text_offset == 0`, `inside` = `insideTextGuard` re-run on the real `can_replace`, `marks` = the parent of `p` allows the node's marks, `trivial` = the real
 `fits_trivially`, `pass1` = the first pass of `drop_point` re-run on the real `can_replace`, `canJoin` = the real
-`can_join` at the join point, which must be `True`).  A marked copy of the inserted node and an aimed schema
+`can_join` at the join point, which must be `True`; `valid` = `type.valid_content(node.content)` of `changeTypeGuard`,
+evaluated wherever the real `can_change_type` approves a non-leaf node: guard ⇒ `set_node_markup` succeeds with the
+expected `ReplaceAroundStep`).  At a top-level insert point whose parent does not allow the node's marks
+(`insertPoint_insert_marked_top`, `top` = `topBoundary` compared exactly) the real plan must be the insertion of the node
+with those marks dropped, and it must succeed.  A marked copy of the inserted node and an aimed schema
 (`insert-inside-text`, content `image? text* image`) make the guards bite.
 Search: approve ⇒ perform ⇒ `check()` ∧ leaf/text sequence equal; helpers never die with an internal
 error and return in-range results; for random schemas only "a performed edit that returns is valid
 and keeps the leaf sequence".
 """
 from prosemirror.model import Fragment, Slice
-from prosemirror.transform import ReplaceStep, Transform
+from prosemirror.transform import ReplaceAroundStep, ReplaceStep, Transform
 from prosemirror.transform.replace import fits_trivially
 from prosemirror.transform.structure import (
     can_change_type,
@@ -175,7 +179,22 @@ def run(ctx):
                 elif g and not (exp["good"] and exp.get("exact", True)):
                     ctx.mismatch(op, replay, "guards hold ⇒ the real edit succeeds, check() passes, the step is ReplaceStep(p, p, slice)",
                                  f"guards hold; real edit: {exp}")
-                for key in ("boundary", "marks", "trivial", "pass1", "canJoin"):
+                if g is False and op in ("insguard insert", "insguard drop"):
+                    why = ("not a TextStable schema" if out.get("ts") is False else
+                           "the parent does not allow the node's marks" if out.get("marks") is False else
+                           "an open slice" if out.get("closed") is False else
+                           "answered by the second pass" if op == "insguard drop" and out.get("pass1") != {"ok": replay.get("point")} else
+                           "insideTextGuard fails" if out.get("inside") is False else "other")
+                    ctx.count(f"{op}: guards=False because {why}, edit {'succeeded' if exp['good'] else 'failed'}")
+                if op == "insguard insert" and out.get("top") is True and out.get("marks") is False and out.get("ts") is True:
+                    # `insertPoint_insert_marked_top`: the Fitter's plan is the insertion of the stripped node, and it succeeds
+                    ctx.count(f"insguard insert: top-level point, marks not allowed: stripped insertion {'planned' if exp['fit'] else 'NOT planned'}")
+                    if not (exp["good"] and exp["fit"]):
+                        ctx.mismatch(op + " marked_top", replay, "the Fitter plans ReplaceStep(p, p, [stripped node]) and it succeeds", f"real edit: {exp}")
+                if "boundary" in exp:
+                    ctx.count(f"{op}: guards={g}, " + ("at a child boundary" if exp["boundary"] else "inside a text child")
+                              + f", edit {'succeeded' if exp['good'] else 'failed'}")
+                for key in ("boundary", "inside", "marks", "trivial", "pass1", "canJoin", "valid", "stripped", "fit", "top"):
                     if key in exp and exp[key] is not None and out.get(key) != exp[key]:
                         ctx.mismatch(op + " " + key, replay, exp[key], out.get(key))
                 if op == "insguard join" and exp.get("canJoin") != {"ok": True}:
@@ -205,6 +224,25 @@ def run(ctx):
     import random as _random
     rng2 = _random.Random(ctx.seed * 7919 + 12)     # own stream: the case stream of the older checks stays as it was
 
+    _al = {}
+
+    def inside_guard(d, p, nodes):
+        """Python counterpart of `insideTextGuard` (lean/PM/InsertGuard.lean): a child boundary, or inside a text child
+        (at a pair-aligned offset) whose parent accepts `text nodes text` there"""
+        rp = d.resolve(p)
+        if rp.text_offset == 0:
+            return True
+        child = rp.parent.child(rp.index())
+        if not child.is_text:
+            return False
+        if id(d) not in _al:
+            _al.clear()
+            _al[id(d)] = (d, set(gen.aligned_positions(d)))
+        if p not in _al[id(d)][1]:
+            return False
+        st_, v = outcome(lambda: rp.parent.can_replace(rp.index() + 1, rp.index() + 1, Fragment(list(nodes) + [child])))
+        return st_ == "ok" and bool(v)
+
     def ins_tie(info, d, ip, node, replay):
         """`insertPoint_insert_applies` at an answer `ip` of the real insert_point: tr.insert(ip, node) vs the guards"""
         sl = Slice(Fragment.from_(node), 0, 0)
@@ -216,10 +254,22 @@ def run(ctx):
         exact = good and len(tr.steps) == 1 and tr.steps[0].to_json() == ReplaceStep(ip, ip, sl).to_json()
         rp = d.resolve(ip)
         stf, ft = outcome(lambda: fits_trivially(rp, rp, sl))
+        stripped = node.mark(rp.parent.type.allowed_marks(node.marks))
+        fit = None
+        if sta == "ok":
+            # the model's `replace_step` (Fitter included) plans the insertion of the stripped node iff the real one does
+            fit = len(tr.steps) == 1 and tr.steps[0].to_json() == ReplaceStep(ip, ip, Slice(Fragment.from_(stripped), 0, 0)).to_json()
+        if good and not rp.parent.type.allows_marks(node.marks):
+            # `insertPoint_insert_succeeds_marked_partial`: how often the Fitter's answer is the insertion of the stripped node
+            as_thm = len(tr.steps) == 1 and tr.steps[0].to_json() == ReplaceStep(ip, ip, Slice(Fragment.from_(stripped), 0, 0)).to_json()
+            ctx.count("insert of a node with marks the parent does not allow succeeded: "
+                      + ("the step is ReplaceStep(p, p, [stripped node])" if as_thm else "another plan"))
         reqs.append({"op": "insGuard", "k": "insert", "s": info.lean_id, "doc": info.node(d), "p": ip, "node": info.node(node)})
         metas.append(("insguard insert", dict(replay, point=ip, node=node.to_json(), real=str(val)[:120] if sta != "ok" else "ok"),
-                      {"good": good, "exact": exact, "boundary": rp.text_offset == 0,
-                       "marks": bool(rp.parent.type.allows_marks(node.marks)), "trivial": bool(ft) if stf == "ok" else None}))
+                      {"good": good, "exact": exact, "boundary": rp.text_offset == 0, "inside": inside_guard(d, ip, [node]),
+                       "marks": bool(rp.parent.type.allows_marks(node.marks)), "trivial": bool(ft) if stf == "ok" else None,
+                       "stripped": info.node(stripped), "fit": fit,
+                       "top": rp.depth == 0 and rp.text_offset == 0 and not d.is_textblock}))
 
     def drop_pass1(d, pos, sl):
         """the first pass of drop_point, re-run on the real can_replace"""
@@ -246,9 +296,37 @@ def run(ctx):
         reqs.append({"op": "insGuard", "k": "drop", "s": info.lean_id, "doc": info.node(d), "p": dp, "pos": pos, "slice": info.slice(sl)})
         metas.append(("insguard drop", dict(replay, point=dp),
                       {"good": good, "exact": exact, "boundary": rp.text_offset == 0,
+                       "inside": inside_guard(d, dp, [sl.content.child(i) for i in range(sl.content.child_count)]),
                        "trivial": bool(ft) if stf == "ok" else None, "pass1": {"ok": p1} if st1 == "ok" else {"err": "raises"}}))
         ctx.count("drop_point answers: " + ("closed slice" if not sl.open_start and not sl.open_end else "open slice")
                   + (", first pass" if st1 == "ok" and p1 == dp else ", second pass"))
+
+    def retype_tie(info, d, pos, ct, replay):
+        """`canChangeType_setNodeMarkup_applies` / `…_leaf_applies` where the real can_change_type approves:
+        tr.set_node_markup(pos, type, attrs) vs `changeTypeGuard`"""
+        stn, node = outcome(lambda: d.node_at(pos))
+        if stn != "ok" or node is None:
+            return
+        attrs = gen.gen_attrs(rng2, ct)
+        tr = Transform(d)
+        sta, val, added = ops.run_op(tr, lambda t: t.set_node_markup(pos, ct, attrs))
+        if sta == "hang":
+            return
+        good = sta == "ok" and outcome(tr.doc.check)[0] == "ok"
+        exact = False
+        if good and len(tr.steps) == 1:
+            e = pos + node.node_size
+            new = ct.create(attrs, None, node.marks)
+            if node.is_leaf:
+                want = ReplaceStep(pos, e, Slice(Fragment.from_(new), 0, 0))
+            else:
+                want = ReplaceAroundStep(pos, e, pos + 1, e - 1, Slice(Fragment.from_(new), 0, 0), 1, True)
+            exact = tr.steps[0].to_json() == want.to_json()
+        stv, valid = outcome(lambda: ct.valid_content(node.content))
+        reqs.append({"op": "insGuard", "k": "retype", "s": info.lean_id, "doc": info.node(d), "p": pos, "ty": info.nid[ct.name]})
+        metas.append(("insguard retype " + ("leaf" if node.is_leaf else "non-leaf"),
+                      dict(replay, attrs=attrs, real=str(val)[:120] if sta != "ok" else "ok"),
+                      {"good": good, "exact": exact, "valid": bool(valid) if stv == "ok" and d.resolve(pos).text_offset == 0 else None}))
 
     def marked(node, schema):
         """a copy of `node` carrying one mark (own random stream), or None"""
@@ -387,6 +465,8 @@ def run(ctx):
                 ct = list(schema.nodes.values())[(pos * 7 + size) % len(schema.nodes)]   # no draw from rng: the case stream stays as it was
                 stc_, okc = outcome(lambda: can_change_type(d, pos, ct))
                 tie(info, d, "canChangeType", {"pos": pos, "ty": info.nid[ct.name]}, dict(base, helper="can_change_type", type=ct.name), stc_, okc, bool)
+                if stc_ == "ok" and okc:
+                    retype_tie(info, d, pos, ct, dict(base, helper="can_change_type", type=ct.name))
                 if st != "ok":
                     ctx.violation("insert_point-raises", f"insert_point raised {ip}", replay)
                 elif ip is not None:
